@@ -180,7 +180,90 @@ def annassign_own_target(tree, read):
     return False
 
 
+def _parents(tree):
+    par = {}
+    for n in ast.walk(tree):
+        for c in ast.iter_child_nodes(n):
+            par[c] = n
+    return par
+
+
+def _node_at(tree, line, col, name):
+    for n in ast.walk(tree):
+        if isinstance(n, ast.Name) and n.id == name and (n.lineno, n.col_offset) == (line, col):
+            return n
+    return None
+
+
+_COMPS = (ast.ListComp, ast.SetComp, ast.DictComp, ast.GeneratorExp)
+
+
+def target_reads_earlier_target(tree, read):
+    """the read lies inside a subscript/attribute target of an assignment statement one of whose earlier targets (or
+    an earlier element of the same target list) binds the identifier: CPython binds targets from left to right, supp
+    makes all bindings of the statement visible after its value expression only."""
+    node = _node_at(tree, read['line'], read['col'], read['name'])
+    if node is None or not isinstance(node.ctx, ast.Load):
+        return False
+    par = _parents(tree)
+    n = node
+    while n in par and not isinstance(par[n], ast.stmt):
+        n = par[n]
+    st = par.get(n)
+    if not isinstance(st, ast.Assign) or n not in st.targets:
+        return False
+    pos = (node.lineno, node.col_offset)
+    for t in st.targets:
+        for x in ast.walk(t):
+            if isinstance(x, ast.Name) and isinstance(x.ctx, ast.Store) and x.id == node.id \
+                    and (x.lineno, x.col_offset) < pos:
+                return True
+    return False
+
+
+def lambda_reads_class_comprehension_variable(tree, read):
+    """the read lies in a lambda inside a comprehension written directly in a class body, and the identifier is a
+    target of that comprehension: supp keeps comprehension variables in regions of the enclosing (class) scope,
+    which nested function scopes skip."""
+    node = _node_at(tree, read['line'], read['col'], read['name'])
+    if node is None:
+        return False
+    par = _parents(tree)
+    n, in_lambda = node, False
+    while n in par:
+        n = par[n]
+        if isinstance(n, ast.Lambda):
+            in_lambda = True
+        elif isinstance(n, _COMPS):
+            if in_lambda and any(isinstance(x, ast.Name) and x.id == node.id
+                                 for g in n.generators for x in ast.walk(g.target)):
+                # the comprehension must belong to a class body
+                m = n
+                while m in par:
+                    m = par[m]
+                    if isinstance(m, (ast.FunctionDef, ast.AsyncFunctionDef, ast.Lambda)):
+                        return False
+                    if isinstance(m, ast.ClassDef):
+                        return True
+                return False
+        elif isinstance(n, (ast.FunctionDef, ast.AsyncFunctionDef, ast.ClassDef)):
+            return False
+    return False
+
+
+def _all_readers(tree, info, name, pred):
+    rs = info.get('readers')
+    return bool(rs) and all(pred(tree, {'line': r[0], 'col': r[1], 'name': name}) for r in rs)
+
+
 def classify(prop, kind, text, tree, read, info):
+    for pred, label in ((target_reads_earlier_target, 'assignment-target-reads-a-name-bound-by-an-earlier-target-of-the-statement'),
+                        (lambda_reads_class_comprehension_variable, 'comprehension-target-read-in-nested-scope-resolves-outward')):
+        if kind == 'lint-unused-but-read':
+            if _all_readers(tree, info, read['name'], pred):
+                return label
+        elif pred(tree, read):
+            return label
     if kind in ('lint-E02', 'lint-E42', 'assist-missing', 'names_at-misses-site', 'location-misses-site'):
         if annassign_own_target(tree, read):
             return 'annassign-annotation-reads-own-target'
